@@ -100,9 +100,23 @@ class C18:
         worlds, progs = [], []
         for _ in range(nw):
             worlds.append(pipeline.gen_world_for(rnd, HPROFILE))
+        ms_world = None
+        if rnd.random() < 0.15:
+            # one world sized for a two-level pyramid, scalar interval: programs on it get a multiscale step
+            ms_world = rnd.randrange(nw)
+            wm = worlds[ms_world]
+            wm["rows"], wm["cols"], wm["bands"] = rnd.randint(24, 34), rnd.randint(26, 38), 1
+            lo = rnd.randint(-6, 0)
+            wm["disp"], wm["disp_right"] = {"kind": "scalar", "min": lo, "max": lo + rnd.randint(2, 6)}, None
         for i in range(npg):
             wi = rnd.randrange(nw)
             p = pipeline.gen_program(rnd, worlds[wi], HPROFILE)
+            if wi == ms_world:
+                p = [st for st in p if st[1].get("filter_method") != "median_for_intervals"]
+                p[0][1]["subpix"] = 1
+                di = next(k_ for k_, (n_, _) in enumerate(p) if programs.kind_of(n_) == "disparity")
+                p.insert(rnd.randint(di + 1, len(p)), ["multiscale", {"multiscale_method": "fixed_zoom_pyramid",
+                                                                       "num_scales": 2, "scale_factor": 2}])
             if rnd.random() < 0.25:
                 # a pipeline whose only validation step carries a suffix
                 p = [[("validation.x" if n == "validation" else n), q] for n, q in p]
